@@ -17,8 +17,8 @@ GEN = []
 REQUIRED_THEOREMS = ['weekday_candidates', 'monthday_candidates_partial', 'monthday_candidates_fixed',
                      'monthday_fails_with_time_of_day', 'feb29_candidates_nonleap_reference',
                      'feb29_candidates_leap_reference_partial', 'feb29_fails_with_time_of_day',
-                     'feb29_fails_next_to_century', 'written_day_partial', 'written_day_past_is_next_year',
-                     'written_day_past_fails', 'written_day_fixed']
+                     'feb29_fails_next_to_century', 'written_day_fixed', 'written_day_prefix_partial',
+                     'written_day_prefix_past_is_next_year', 'written_day_prefix_regression']
 RULE = ('unit: generate_dates over all 366 (month, day) x boundary reference days (month ends/starts, leap days, year '
         'boundaries, ISO week transitions, all weekdays; thorough: + every 7th day of 1996-2024 and every 2nd of 2087-2090) x times '
         '{00:00:00, 14:30:00, 23:59:59}, also with an explicit year and invalid days; bare weekday branch over every day '
@@ -183,6 +183,7 @@ def unit_bare_weekday(ctx, days):
     ctx.sample({'op': lines[3], 'expression': meta[3], 'implementation': impl[3]})
 
 
+WITNESS_WRITTEN = dt.datetime(2020, 2, 21, 0, 0, 0)        # written_day_prefix_regression
 WRITTEN = [('january first', 1, 1), ('february twenty second', 2, 22), ('may twenty nine', 5, 29),
            ('december thirty first', 12, 31), ('july fourth', 7, 4), ('may twenty one', 5, 21)]
 
@@ -191,30 +192,38 @@ def unit_number_with_month(ctx, days):
     """BaseDateParser.parse_number_with_month (month + spelled-out day, no year) called directly."""
     from recognizers_date_time.date_time.english.common_configs import EnglishCommonDateTimeParserConfiguration
     dp = EnglishCommonDateTimeParserConfiguration().date_parser
-    lines, impl, meta = [], [], []
+    lines, impl, meta, refs = [], [], [], []
+    days = [WITNESS_WRITTEN] + list(days)          # written_day_prefix_regression first: a revert is reported with it
     for i, d0 in enumerate(days):
-        for text, m, d in WRITTEN:
-            for R in (at(d0, calcorr.TIMES[i % 3]),):
-                lines.append('du.nwm\t%s\t%d\t%d' % (ref_fields(R), m, d))
+        for text, m, d in WRITTEN[1:2] + WRITTEN[:1] + WRITTEN[2:]:
+            R = d0 if isinstance(d0, dt.datetime) else at(d0, calcorr.TIMES[i % 3])
+            lines.append('du.nwm\t%s\t%d\t%d' % (ref_fields(R), m, d))
 
-                def run():
-                    x = dp.parse_number_with_month(text, R)
-                    return '%s\t%s\t%s' % (x.timex, fmt_dt(x.future_value), fmt_dt(x.past_value)) if x.success else 'no'
-                impl.append(guarded(run))
-                meta.append(text)
+            def run():
+                x = dp.parse_number_with_month(text, R)
+                return '%s\t%s\t%s' % (x.timex, fmt_dt(x.future_value), fmt_dt(x.past_value)) if x.success else 'no'
+            impl.append(guarded(run))
+            meta.append(text)
+            refs.append((R, m, d))
     model = common.driver(lines)
     ctx.count('parse_number_with_month', len(lines))
-    fixed = common.driver([l.replace('du.nwm\t', 'du.nwmfixed\t', 1) for l in lines])
-    if impl != model and impl == fixed:
-        ctx.extra['number_with_month_variant'] = 'repaired (past candidate = year - 1)'
-        return
-    bad = 0
-    for l, e, a, b in zip(lines, meta, impl, model):
-        if a != b:
-            bad += 1
-            if bad <= 3:
-                ctx.report('correspondence', 'number-with-month', '%s (%r): implementation %s, model %s' % (l, e, a, b),
-                           failing_input={'op': l, 'expression': e, 'implementation': a, 'model': b})
+    diff = [i for i, (a, b) in enumerate(zip(impl, model)) if a != b]
+    if diff:
+        # a revert of 151a4ac9b?  the pre-fix variant (past candidate = year + 1) is still modelled
+        pre = common.driver([lines[i].replace('du.nwm\t', 'du.nwmprefix\t', 1) for i in diff])
+        for i, pf in zip(list(diff), pre):
+            if impl[i] == pf:
+                R, m, d = refs[i]
+                want = calcorr.c09_oracle('monthday', (m, d), R)
+                ctx.report('property', 'written-day-past-year-plus-one', 'parse_number_with_month(%r, %s) -> %s; the property '
+                           'states %r (pre-fix behaviour: past candidate = year + 1)' % (meta[i], R, impl[i], want),
+                           failing_input={'op': 'parse_number_with_month', 'expression': meta[i], 'reference': str(R),
+                                          'implementation': impl[i], 'model': model[i], 'property_expects': want},
+                           property_fails=True)
+                diff.remove(i)
+    for i in diff[:3]:
+        ctx.report('correspondence', 'number-with-month', '%s (%r): implementation %s, model %s' % (lines[i], meta[i], impl[i], model[i]),
+                   failing_input={'op': lines[i], 'expression': meta[i], 'implementation': impl[i], 'model': model[i]})
     ctx.sample({'op': lines[0], 'expression': meta[0], 'implementation': impl[0]})
 
 
@@ -298,7 +307,7 @@ def pipeline(ctx):
             mlines.append('du.bare\t%s\t%d' % (ref_fields(R), par % 7))
     answers = common.driver(mlines)
     fixed_ans = common.driver([l.replace('du.md\t', 'du.mdfixed\t', 1) if l.startswith('du.md\t') else l for l in mlines])
-    nwm_ans = common.driver([l.replace('du.md\t', 'du.nwm\t', 1) if l.startswith('du.md\t') else l for l in mlines])
+    nwm_ans = common.driver([l.replace('du.md\t', 'du.nwmprefix\t', 1) if l.startswith('du.md\t') else l for l in mlines])
     for ci, ((expr, R, fam, par, cul, dem, _car), res, ans, fans) in enumerate(zip(cases, results, answers, fixed_ans)):
         ctx.count('pipeline:%s:%s' % (cul, fam))
         ent = calcorr.whole_entity(res, expr) or carried.get(ci)
